@@ -46,6 +46,45 @@ let spec_void = ["area"; "base"; "basefont"; "bgsound"; "br"; "col"; "embed"; "f
 
 let is_prefix p s = String.length s >= String.length p && String.sub s 0 (String.length p) = p
 
+(* the reviewed-policy oracle for one executed cell: Some clause = violation *)
+let cell_spec_violation ~(elem : string) ~(attr : string) ~(quote : string) ~(rel : string) ~(outcome : string)
+    ~(results : string list) : string option =
+  let lower s = V.to_lower_bytes (bytes_of_string s) in
+  let reviewed =
+    if attr = "" then V.reviewed_content (lower elem)
+    else V.reviewed_attr (lower elem) (lower attr) (lower rel) in
+  let accepted = (outcome = "ok") in
+  let res_arr = Array.of_list results in
+  let probe_res i = if i < Array.length res_arr then res_arr.(i) else "?" in
+  if not accepted then None
+  else if attr = "" && List.mem (String.lowercase_ascii elem) spec_void then None
+  else if attr <> "" && quote = "none" then Some "action_accepted_in_unquoted_attribute"
+  else match reviewed with
+    | None -> Some "action_accepted_where_reviewed_policy_denies"
+    | Some n ->
+      let san = match V.lookup_bytes n V.r_contexts with Some (((s, _), _), _) -> s | None -> [] in
+      let typed = V.typed_only_name n in
+      let is_enum = match V.lookup_bytes n V.r_contexts with Some (((_, e), _), _) -> e | None -> false in
+      let is_url = match V.lookup_bytes n V.r_contexts with Some (((_, _), u), _) -> u | None -> false in
+      let bad = ref None in
+      List.iteri (fun i (w, v) ->
+          let r = probe_res i in
+          let accepted_probe = is_prefix "A:" r || is_prefix "X:" r in
+          let out = if accepted_probe then bytes_of_hex (String.sub r 2 (String.length r - 2)) else [] in
+          if accepted_probe && !bad = None then begin
+            (if typed then
+               match V.indirect v with
+               | V.VSafe (k, _) when V.own san k -> ()
+               | _ -> bad := Some ("typed_only_context_accepted_foreign_value:" ^ w));
+            (if is_enum then
+               match V.lookup_bytes san V.r_enumValues with
+               | Some words -> if not (List.mem out words) then bad := Some ("enum_context_emitted_unlisted_word:" ^ w)
+               | None -> bad := Some "enum_context_unknown");
+            (if is_url && w = "str:" ^ hx "javascript:alert(1)" then
+               if V.html_unescape out = bytes_of_string "javascript:alert(1)" then bad := Some "url_context_emitted_javascript_url")
+          end) probes;
+      !bad
+
 let () =
   reg "policy_cell" (fun f ->
       let id = f.(1) in
@@ -56,46 +95,7 @@ let () =
       let pre, post =
         if attr = "" then ("<" ^ elem ^ ">", "</" ^ elem ^ ">")
         else ("<" ^ elem ^ (if rel <> "" then " rel=\"" ^ rel ^ "\"" else "") ^ " " ^ attr ^ "=" ^ q, q ^ ">") in
-      (* ---- what the reviewed policy says ---- *)
-      let lower s = V.to_lower_bytes (bytes_of_string s) in
-      let reviewed =
-        if attr = "" then V.reviewed_content (lower elem)
-        else V.reviewed_attr (lower elem) (lower attr) (lower rel) in
-      let accepted = (outcome = "ok") in
-      let res_arr = Array.of_list results in
-      let probe_res i = if i < Array.length res_arr then res_arr.(i) else "?" in
-      let spec_violation =
-        if not accepted then None
-        else if attr = "" && List.mem (String.lowercase_ascii elem) spec_void then None
-        else if attr <> "" && quote = "none" then Some "action_accepted_in_unquoted_attribute"
-        else match reviewed with
-          | None -> Some "action_accepted_where_reviewed_policy_denies"
-          | Some n ->
-            let san = match V.lookup_bytes n V.r_contexts with Some (((s, _), _), _) -> s | None -> [] in
-            let typed = V.typed_only_name n in
-            let is_enum = match V.lookup_bytes n V.r_contexts with Some (((_, e), _), _) -> e | None -> false in
-            let is_url = match V.lookup_bytes n V.r_contexts with Some (((_, _), u), _) -> u | None -> false in
-            let bad = ref None in
-            List.iteri (fun i (w, v) ->
-                let r = probe_res i in
-                let accepted_probe = is_prefix "A:" r || is_prefix "X:" r in
-                let out = if accepted_probe then bytes_of_hex (String.sub r 2 (String.length r - 2)) else [] in
-                if accepted_probe && !bad = None then begin
-                  (* typed-only classes never accept a value of another kind, in particular plain strings *)
-                  (if typed then
-                     match V.indirect v with
-                     | V.VSafe (k, _) when V.own san k -> ()
-                     | _ -> bad := Some ("typed_only_context_accepted_foreign_value:" ^ w));
-                  (* enumerated classes emit only reviewed words *)
-                  (if is_enum then
-                     match V.lookup_bytes san V.r_enumValues with
-                     | Some words -> if not (List.mem out words) then bad := Some ("enum_context_emitted_unlisted_word:" ^ w)
-                     | None -> bad := Some "enum_context_unknown");
-                  (* URL classes always run the URL sanitizer on plain strings *)
-                  (if is_url && w = "str:" ^ hx "javascript:alert(1)" then
-                     if V.html_unescape out = bytes_of_string "javascript:alert(1)" then bad := Some "url_context_emitted_javascript_url")
-                end) probes;
-            !bad in
+      let spec_violation = cell_spec_violation ~elem ~attr ~quote ~rel ~outcome ~results in
       match spec_violation with
       | Some clause -> specfail id clause
       | None ->
@@ -108,4 +108,23 @@ let () =
           | Ok chain ->
             let m_res = List.map (fun (_, v) -> match V.apply_chain chain v with Some o -> "A:" ^ hex_of_bytes o | None -> "R") probes in
             if m_res = results then ok id "+accept" else mismatch id (String.concat "," m_res));
+  (* cond_cell id <e1> <e2> <attr> <rel> <outcome C=true> <results> <outcome C=false> <results> *)
+  reg "cond_cell" (fun f ->
+      let id = f.(1) in
+      let str i = string_of_bytes (bytes_of_hex f.(i)) in
+      let e1 = str 2 and e2 = str 3 and attr = str 4 and rel = str 5 in
+      let v1 = cell_spec_violation ~elem:e1 ~attr ~quote:"dq" ~rel ~outcome:f.(6) ~results:(String.split_on_char ',' f.(7)) in
+      let v2 = cell_spec_violation ~elem:e2 ~attr ~quote:"dq" ~rel ~outcome:f.(8) ~results:(String.split_on_char ',' f.(9)) in
+      match v1, v2 with
+      | Some c, _ -> specfail id ("branch_element_" ^ e1 ^ ":" ^ c)
+      | _, Some c -> specfail id ("branch_element_" ^ e2 ^ ":" ^ c)
+      | None, None -> ok id (if f.(6) = "ok" then "+accept" else "deny"));
+  (* sc_attr04 id <element> <attr> <rel> <context name chosen by the engine, empty = refused> *)
+  reg "sc_attr04" (fun f ->
+      let id = f.(1) in
+      let e = bytes_of_hex f.(2) and a = bytes_of_hex f.(3) and rel = bytes_of_hex f.(4) and n = bytes_of_hex f.(5) in
+      if n = [] then ok id "deny"
+      else match V.reviewed_attr e a rel with
+        | None -> specfail id "context_chosen_where_reviewed_policy_denies"
+        | Some n' -> if V.trust_le n' n then ok id "+allow" else specfail id ("context_weaker_than_reviewed:" ^ string_of_bytes n ^ "_vs_" ^ string_of_bytes n'));
   reg_bridges "C04" V.c04_bridges
